@@ -515,8 +515,8 @@ def long_requests(rng, quick):
              (b"shutdown ", "arg"), (b"wait ", "arg")]
     for L in SMALL_BOUNDS + BIG_BOUNDS:
         big = L > 4097
-        # (quick: no single token above ~1 KiB -- the model's splitter is quadratic in the token length; the request lengths are the same)
-        chunk = 700 if big or (quick and L > 1100) else None
+        # (quick: no single token above 300 bytes -- the model's splitter is quadratic in the token length; the request lengths are the same)
+        chunk = (200 if L > 300 else None) if quick else (700 if big else None)
         fs = forms if not big else ([forms[0], forms[2]] if quick and L > 9000 else forms[:5])
         for fi, (prefix, rel) in enumerate(fs):
             for (w, before) in STRADDLES:
